@@ -17,8 +17,8 @@
    on every rel attribute after the filtering loop are still on every rel attribute.  With
    C11_no_duplicate / C11_tokens_kept (values are only extended, by missing tokens).
    C11_output_tokens: the same for the attributes of every a/area/link/base tag that a tokenizer
-   reads from the output bytes (policies without comments and raw-text elements).
-   Missing: byte level for policies with comments / raw-text elements; covered by the link
+   reads from the output bytes (policies without AllowUnsafe and raw-text elements).
+   Missing: byte level for policies with raw-text elements; covered by the link
    correspondence (all 32 option combinations x generated attribute lists) and the output oracle. *)
 From Coq Require Import List NArith Bool.
 Import ListNotations.
